@@ -122,6 +122,20 @@ def check_text(acc, text, with_comments, w):
     again = [id(n) for n in walker.walk(root)]
     if again != [id(n) for n in walked]:
         acc.bag.add('C16|walk-order-not-reproducible', w, '')
+    # the documented `condition` argument of walk is ignored: every node is
+    # yielded whatever is passed
+    for pname, pred in PREDICATES[:3] + PREDICATES[4:5]:
+        try:
+            w2 = [id(n) for n in walker.walk(root, pred)]
+        except Exception as e:
+            acc.bag.add('C16|walk-with-condition-raises|%s' %
+                        type(e).__name__, w, repr(e))
+            break
+        if w2 != [id(n) for n in walked]:
+            acc.bag.add('C16|walk-with-condition-omits-nodes|%s' % pname, w,
+                        'walk(tree, %s) yields %d nodes, walk(tree) %d' % (
+                            pname, len(w2), len(walked)))
+            break
     # filter == walk then select; extract == n-th match or TypeError
     for pname, pred in PREDICATES:
         want = [id(n) for n in walked if pred(n)]
